@@ -323,6 +323,10 @@ static void *c05_root(void *arg) {
 			msg_rec *m = &W.msgs[i];
 			if (m->race && m->sent && m->rc != 0 && m->exec_count != 0)
 				sim_violation("msg-fail-but-ran", "send during shutdown (flags %x, thread %d) returned %d, yet the callback ran %d time(s)", m->flags, m->dst, m->rc, m->exec_count);
+			/* accepted, and a worker has READ the packet: then it runs - also when the worker was told to stop by an
+			 * earlier packet of the same batch (only what is still in the pipe when the worker leaves is nobody's) */
+			if (m->sent && 0 == m->rc && 0 == m->exec_count && !m->exec_sync && world_msg_was_read(m))
+				sim_violation("msg-read-but-dropped", "message %d (flags %x, thread %d) was accepted and its packet was read from the queue, but the callback never ran", m->id, m->flags, m->dst);
 			if (m->race && m->exec_count > 1)
 				sim_violation("msg-duplicate", "message %d sent during shutdown ran %d times", m->id, m->exec_count);
 		}
